@@ -218,7 +218,7 @@ WITNESS = {
     "sec_colon_required": "T154N-R97W Sec 14 NE/4, Sec 15: W/2",
     "sec_colon_cautious": "T154N-R97W Sec 14 NE/4, Sec 15: W/2",
     "suppress_lot_divs": "T154N-R97W Sec 14: N/2 of Lot 1, NE/4",
-    "ocr_scrub": "TI54N-R97W Sec 14: NE/4",
+    "ocr_scrub": "TlS4N-Rl0lW Sec 14: NE/4",   # unreadable unless scrubbed
     "segment": "T154N-R97W Sec 14: NE/4\nT155N-R97W W/2 of Section 15",
     "qq_depth": "T154N-R97W Sec 14: S/2N/2NE/4, E/2NE/4SW/4",
     "qq_depth_min": "T154N-R97W Sec 14: S/2N/2NE/4, NW/4",
@@ -240,6 +240,7 @@ TRACT_WITNESS = {
 }
 
 HANDPICKED = sorted(set(WITNESS.values())) + [
+    "TI54N-R97W Sec 14: NE/4",       # readable both ways, differently
     "T154N-R97W\nSec 14: NE/4\nSec 15: Northwest Quarter, North Half South West Quarter",
     "T154N-R97W Sec 14: Lots 1, 1, NE/4, NE/4\nSec 15: Lot 1(38.29), Lot 1(39.00)",
     "T154N-R97W Secs 1 - 3: ALL",
